@@ -18,7 +18,7 @@ import (
 
 // C15 — Shutdown is graceful.
 // Scenario letters per connection: i = served one request and now idle keep-alive; h = handler parked on a gate when
-// Shutdown begins (released `delay` ms later); k = the same for the second request of a keep-alive connection; p = two pipelined requests, the first parked; c = served and closed by client.
+// Shutdown begins (released `delay` ms later); w = accepted, ConnState(StateNew) hook parked (Serve loop between Accept and worker); k = the same for the second request of a keep-alive connection; p = two pipelined requests, the first parked; c = served and closed by client.
 func init() {
 	Register(&Prop{
 		ID: "C15", NoShrink: true,
@@ -33,20 +33,32 @@ func init() {
 			ln := fasthttputil.NewInmemoryListener()
 			gate := make(chan struct{})
 			var running, started, doneSeen atomic.Int32
-			s := &fasthttp.Server{Logger: nopLogger{}, ReduceMemoryUsage: reduceMem, Handler: func(ctx *fasthttp.RequestCtx) {
-				running.Add(1)
-				defer running.Add(-1)
-				if ctx.QueryArgs().Has("hold") {
-					started.Add(1)
-					<-gate
-					select {
-					case <-ctx.Done():
-						doneSeen.Add(1)
-					default:
+			// 'w': the ConnState(StateNew) hook of one accepted connection is parked when Shutdown begins: the Serve loop
+			// is between Accept and handing the connection to a worker
+			var parkNew atomic.Bool
+			gateNew := make(chan struct{})
+			var shutdownReturned atomic.Bool
+			var startedAfterReturn atomic.Int32
+			s := &fasthttp.Server{Logger: nopLogger{}, ReduceMemoryUsage: reduceMem,
+				ConnState: func(_ net.Conn, st fasthttp.ConnState) {
+					if st == fasthttp.StateNew && parkNew.CompareAndSwap(true, false) {
+						<-gateNew
 					}
-				}
-				ctx.SetBodyString("ok-" + string(ctx.QueryArgs().Peek("id")))
-			}}
+				},
+				Handler: func(ctx *fasthttp.RequestCtx) {
+					running.Add(1)
+					defer running.Add(-1)
+					if ctx.QueryArgs().Has("hold") {
+						started.Add(1)
+						<-gate
+						select {
+						case <-ctx.Done():
+							doneSeen.Add(1)
+						default:
+						}
+					}
+					ctx.SetBodyString("ok-" + string(ctx.QueryArgs().Peek("id")))
+				}}
 			serveDone := make(chan struct{})
 			go func() { s.Serve(ln); close(serveDone) }()
 			type cl struct {
@@ -70,6 +82,9 @@ func init() {
 				return string(b[:n]), nil
 			}
 			for i := 0; i < len(script); i++ {
+				if script[i] == 'w' {
+					parkNew.Store(true)
+				}
 				c, err := ln.Dial()
 				if err != nil {
 					break
@@ -94,6 +109,9 @@ func init() {
 					read(k)
 					fmt.Fprintf(c, "GET /?id=%dk&hold=1 HTTP/1.1\r\nHost: h\r\n\r\n", i)
 					k.expect = []string{fmt.Sprintf("ok-%dk", i)}
+				case 'w':
+					fmt.Fprintf(c, "GET /?id=%dw HTTP/1.1\r\nHost: h\r\n\r\n", i)
+					k.expect = []string{fmt.Sprintf("ok-%dw", i)}
 				case 'p':
 					fmt.Fprintf(c, "GET /?id=%d&hold=1 HTTP/1.1\r\nHost: h\r\n\r\nGET /?id=%dx HTTP/1.1\r\nHost: h\r\n\r\n", i, i)
 					k.expect = []string{fmt.Sprintf("ok-%d", i)}
@@ -123,25 +141,54 @@ func init() {
 					}
 				}(k)
 			}
-			shutErr := make(chan error, 1)
+			// everything the property says about "after Shutdown returns nil" is sampled in the goroutine that called
+			// Shutdown, at the moment it returns (not later, when the gates may already have been opened)
+			type shutRes struct {
+				err                        error
+				running                    int32
+				serveReturned, dialRefused bool
+			}
+			shutCh := make(chan shutRes, 1)
 			t0 := time.Now()
-			go func() { shutErr <- s.Shutdown() }()
+			go func() {
+				var r shutRes
+				r.err = s.Shutdown()
+				shutdownReturned.Store(true)
+				r.running = running.Load()
+				select {
+				case <-serveDone:
+					r.serveReturned = true
+				default:
+					// Serve returns right after the drain it shares with Shutdown: give its goroutine a moment to get there
+					select {
+					case <-serveDone:
+						r.serveReturned = true
+					case <-time.After(200 * time.Millisecond):
+					}
+				}
+				dc := make(chan bool, 1)
+				go func() { _, derr := ln.Dial(); dc <- derr != nil }()
+				select {
+				case r.dialRefused = <-dc:
+				case <-time.After(500 * time.Millisecond):
+					// the dial was queued and nobody refused it: the listener is still open (or its accept loop is stuck)
+				}
+				shutCh <- r
+			}()
 			time.Sleep(delay)
 			runningAtRelease := running.Load()
 			close(gate)
+			if strings.Contains(script, "w") {
+				// keep the Serve loop parked well beyond the grace given to Serve's own return below
+				time.Sleep(400*time.Millisecond - min(delay, 400*time.Millisecond))
+			}
+			close(gateNew)
 			var err error
 			var runningAtReturn int32
 			var serveReturned, dialRefused bool
 			select {
-			case err = <-shutErr:
-				runningAtReturn = running.Load()
-				select {
-				case <-serveDone:
-					serveReturned = true
-				default:
-				}
-				_, derr := ln.Dial()
-				dialRefused = derr != nil
+			case r := <-shutCh:
+				err, runningAtReturn, serveReturned, dialRefused = r.err, r.running, r.serveReturned, r.dialRefused
 			case <-time.After(8 * time.Second):
 				err = fmt.Errorf("shutdown did not return within 8s")
 			}
@@ -167,7 +214,7 @@ func init() {
 			}
 			impl := fmt.Sprintf("err=%v took=%dms runningAtRelease=%d runningAtReturn=%d serveReturned=%v dialRefused=%v missing=%v doneSeen=%d/%d",
 				err, took.Milliseconds(), runningAtRelease, runningAtReturn, serveReturned, dialRefused, missing, doneSeen.Load(), nHold)
-			return &Case{Impl: impl, Nontrivial: nHold > 0, Tags: []string{"shutdown", fmt.Sprintf("rm=%v", reduceMem)},
+			return &Case{Impl: impl, Nontrivial: nHold > 0 || strings.Contains(script, "w"), Tags: []string{"shutdown", fmt.Sprintf("rm=%v", reduceMem)},
 				Judge: func([]string) Verdict {
 					desc := fmt.Sprintf("script %q delay %v ReduceMemoryUsage=%v: %s", script, delay, reduceMem, impl)
 					if err != nil {
@@ -175,6 +222,9 @@ func init() {
 					}
 					if runningAtReturn != 0 {
 						return Verdict{VSpec, "handler-running-after-shutdown", desc}
+					}
+					if n := startedAfterReturn.Load(); n != 0 {
+						return Verdict{VSpec, "handler-started-after-shutdown-returned", fmt.Sprintf("%s: %d handler(s) started after Shutdown had returned nil", desc, n)}
 					}
 					if !serveReturned {
 						return Verdict{VSpec, "serve-not-returned", desc}
@@ -203,6 +253,9 @@ func init() {
 				var sc []byte
 				for j, m := 0, 1+r.Intn(4); j < m; j++ {
 					sc = append(sc, "iihhpckk"[r.Intn(8)])
+				}
+				if r.Chance(30) {
+					sc = append(sc, 'w') // always last: its parked hook blocks the accept loop
 				}
 				emit("shutdown", sc, []byte{byte([]int{0, 5, 20, 60}[r.Intn(4)])}, B(r.Pick([]string{"rm=0", "rm=1"})))
 			}
